@@ -7,6 +7,8 @@
 #
 # Modified by Massimiliano Leoni, 2016.
 
+import itertools
+
 from ufl.constantvalue import Zero, as_ufl
 from ufl.core.expr import Expr
 from ufl.core.multiindex import FixedIndex, Index, MultiIndex, indices
@@ -525,6 +527,12 @@ def unwrap_list_tensor(lt):
             components.append(((s,), subs[s]))
     else:
         for s, sub in enumerate(subs):
-            for c, v in unwrap_list_tensor(sub):
-                components.append(((s,) + c, v))
+            if isinstance(sub, ListTensor):
+                for c, v in unwrap_list_tensor(sub):
+                    components.append(((s,) + c, v))
+            else:
+                # A row need not be a list tensor itself (an all-zero
+                # row is folded to a Zero): take its components
+                for c in itertools.product(*(range(n) for n in sub.ufl_shape)):
+                    components.append(((s,) + c, sub[c]))
     return components
